@@ -144,8 +144,11 @@ def check_one(args):
         if eq is True:
             continue
         msg = 'instruction %d: listing assembles to <%s %s>, emitted code is <%s %s>' % (k, a.mnem, ','.join(a.ops), b.mnem, ','.join(b.ops))
-        if eq is None:
+        if eq is None and a.mnem == b.mnem:
             res['inconclusive'].append(msg + ' (' + why + ')')
+        elif eq is None:
+            # different mnemonics whose equivalence cannot be established: the listing names another instruction
+            res['viol'].append(msg + ' [different mnemonic; equivalence not established: ' + why + ']')
         else:
             res['viol'].append(msg + ' [' + why + ']')
     return res
